@@ -236,7 +236,7 @@ class SourceModel:
                 return ("class", f"{module}.{name}")
             if isinstance(b, ast.Lambda):
                 return ("func", f"{module}.{name}")
-            return ("value", module, b)
+            return ("value", module, b, name)
         if name in m.imports:
             imp = m.imports[name]
             if imp[0] == "module":
